@@ -2,6 +2,8 @@ import PartituraModel.Wire
 import PartituraModel.Model.Ps13
 import PartituraModel.Model.Voices
 import PartituraModel.Model.KeyEst
+import PartituraModel.Model.Vosa
+import PartituraModel.Model.C17Wrap
 
 open Wire Model
 
@@ -30,6 +32,19 @@ def parseProfileSet : P KeyEst.ProfileSet := do
 def pRow : P Ps13.Row := do let o ← rat; let p ← int; pure (o, p)
 def pVNote : P Voices.VNote := do let p ← int; let o ← rat; let d ← rat; pure (p, o, d)
 def pIdVoice : P (Nat × Int) := do let i ← nat; let v ← int; pure (i, v)
+def pVRow : P Vosa.Row := do
+  let i ← nat; let p ← int; let o ← rat; let d ← rat; let f ← rat; pure (i, p, o, d, f)
+def pVNoteOff : P (Voices.VNote × Rat) := do
+  let p ← int; let o ← rat; let d ← rat; let f ← rat; pure ((p, o, d), f)
+/-- a note of a `pairwise_cost` argument: (object number, pitch, skip_contig) -/
+def pCostNote : P (Nat × Int × Nat) := do let i ← nat; let p ← int; let s ← nat; pure (i, p, s)
+def fmtIdVoice (x : Nat × Int) : String := fmtTuple [fmtNat x.1, fmtInt x.2]
+def costNote (x : Nat × Int × Nat) : Vosa.N := { ix := x.1, id := x.1, p := x.2.1, on := 0, du := 0, off := 0 }
+def skipArray (l : List (Nat × Int × Nat)) : Array Nat :=
+  l.foldl (fun a x => a.setIfInBounds x.1 x.2.2) (Array.replicate ((l.map (·.1)).foldl max 0 + 1) 0)
+def pCol : P (String × List Rat) := do let n ← str; let c ← list rat; pure (n, c)
+def pArr : P C17Wrap.NoteArray := do
+  let p ← opt (list int); let cols ← list pCol; pure { pitch := p, cols := cols }
 def pKNote : P KeyEst.KNote := do let p ← int; let d ← rat; pure (p, d)
 
 def handle (ts : List String) : String :=
@@ -63,13 +78,54 @@ def handle (ts : List String) : String :=
   | "vin" :: rest =>
     orErr <| (run (do let mono ← bool; let notes ← list pVNote; pure (mono, notes)) rest).map
       fun (mono, notes) => fmtList (fun r => fmtNat r.1) (Voices.vosaInput mono notes)
+  | "vosa" :: rest =>
+    orErr <| (run (list pVRow) rest).bind fun rows => (Vosa.run rows).map (fmtList fmtIdVoice)
+  | "contigs" :: rest =>
+    orErr <| (run (list pVRow) rest).bind fun rows =>
+      (Vosa.contigsOf rows).map (fmtList (fmtList (fmtList fmtNat)))
+  | "voicesx" :: rest =>
+    orErr <| (run (do let mono ← bool; let notes ← list pVNoteOff; pure (mono, notes)) rest).bind
+      fun (mono, notes) =>
+        (Vosa.estimateVoicesWith (notes.map (·.2)) mono (notes.map (·.1))).map (fmtList fmtInt)
+  | "cost" :: rest =>
+    orErr <| (run (do let a ← list pCostNote; let b ← list pCostNote; pure (a, b)) rest).bind
+      fun (a, b) => (Vosa.pairwiseCost (skipArray (a ++ b)) (a.map costNote) (b.map costNote)).map
+        (fmtList (fmtList fmtInt))
+  | "best" :: rest =>
+    orErr <| (run (do let next ← bool; let m ← list (list int); pure (next, m)) rest).bind
+      fun (next, m) =>
+        let nCols := (m.head?.map (·.length)).getD 0
+        (if next then Vosa.transpose nCols m else some m).map fun con =>
+          let r := Vosa.estBest con (if next then m.length else nCols)
+          fmtTuple [fmtList (fun x => fmtTuple [fmtNat x.1, fmtNat x.2]) r.1, fmtList fmtNat r.2]
+  | "units" :: rest =>
+    orErr <| (run (list str) rest).bind fun fs => (C17Wrap.timeUnits fs).map fun u => fmtTuple [u.1, u.2]
+  | "prep" :: rest =>
+    orErr <| (run pArr rest).bind fun a => (C17Wrap.prepare a).map
+      (fmtList fun r => fmtTuple [fmtInt r.1, fmtRat r.2.1, fmtRat r.2.2])
+  | "voarr" :: rest =>
+    orErr <| (run (do let mono ← bool; let a ← pArr; let offs ← list rat; pure (mono, a, offs)) rest).bind
+      fun (mono, a, offs) => (C17Wrap.estimateVoicesArr offs mono a).map (fmtList fmtInt)
+  | "keyarr" :: rest =>
+    orErr <| (run (do let nm ← opt str; let a ← pArr; pure (nm, a)) rest).bind
+      fun (nm, a) => C17Wrap.estimateKeyArr nm a
+  | "psarr" :: rest =>
+    orErr <| (run pArr rest).bind fun a => (C17Wrap.spellingRows a).bind fun rows =>
+      (Ps13.ps13Default rows).map fun sp => fmtList (fun x => fmtSpelling x.2) ((rows.zip sp).mergeSort spLe)
+  | "profname" :: rest =>
+    orErr <| (run (opt str) rest).bind fun nm => (C17Wrap.estimateKeySet nm).map C17Wrap.setName
+  | "kskid" :: rest =>
+    orErr <| (run str rest).bind fun nm => (C17Wrap.ksKidSet nm).map C17Wrap.setName
+  | "keysorted" :: rest =>
+    orErr <| (run (do let ps ← parseProfileSet; let notes ← list pKNote; pure (ps, notes)) rest).bind
+      fun (ps, notes) => some (fmtList id (C17Wrap.sortedKeys ps notes))
   | "rename" :: rest =>
     orErr <| (run (list int) rest).map fun vs => fmtList fmtInt (Voices.rename vs)
   | "final" :: rest =>
     orErr <| (run (list int) rest).bind fun vs => (Voices.finalize vs).map (fmtList fmtInt)
   | "key" :: rest =>
     orErr <| (run (do let ps ← parseProfileSet; let notes ← list pKNote; pure (ps, notes)) rest).bind
-      fun (ps, notes) => KeyEst.estimateKey ps notes
+      fun (ps, notes) => C17Wrap.estimateKeyFast ps notes
   | "keyname" :: rest =>
     orErr <| (run nat rest).bind KeyEst.keyNameAt
   | _ => "bad-request"
